@@ -136,7 +136,7 @@ theorem no_repeats_graph (first last : Int) (h : first < last) :
     List.map_nil, List.length_cons, List.length_nil]
   simp only [procAll, List.replicate, hproc]
   by_cases h0 : first = 0 <;>
-    simp [buildSegs, cleanTo, insSorted, insVolta, h0]
+    simp [buildSegs, cleanTo, nav1Of, insSorted, insVolta, h0]
 
 theorem no_repeats_aux (first last : Int) (h : first < last) (nr ar il : Bool) (fuel : Nat) :
     (mkSegments { first := first, last := last }).bind (fun g => getPaths g nr ar il (fuel + 1)) = some [[0]] := by
@@ -644,16 +644,16 @@ theorem sorted_get_lt (l : List Int) (h : StrictSorted l) :
         exact ih (sorted_tail a r h) i j x y (by omega) hx hy
 
 theorem buildSegs_get (times : List Int) (info : List SegInfo) :
-    ∀ (ts : List Int) (infs : List SegInfo) (g : List Seg), buildSegs times info ts infs = some g →
+    ∀ (ts : List Int) (k : Nat) (infs : List SegInfo) (g : List Seg), buildSegs times info k ts infs = some g →
       ∀ (i : Nat) (s : Seg), g[i]? = some s → ts[i]? = some s.start ∧ ts[i + 1]? = some s.stp := by
   intro ts
   induction ts with
   | nil =>
-    intro infs g h i s hs
+    intro k infs g h i s hs
     simp only [buildSegs, Option.some.injEq] at h
     subst h; simp at hs
   | cons a r ih =>
-    intro infs g h i s hs
+    intro k infs g h i s hs
     cases r with
     | nil =>
       simp only [buildSegs, Option.some.injEq] at h
@@ -665,12 +665,12 @@ theorem buildSegs_get (times : List Int) (info : List SegInfo) :
         subst h; simp at hs
       | cons inf infs' =>
         simp only [buildSegs] at h
-        cases hc : cleanTo inf.to with
+        cases hc : cleanTo k inf.to with
         | none => simp [hc] at h
         | some pr =>
           obtain ⟨to, aw⟩ := pr
           simp only [hc, Option.bind_eq_bind, Option.bind_some] at h
-          cases ht : buildSegs times info (b :: r') infs' with
+          cases ht : buildSegs times info (k + 1) (b :: r') infs' with
           | none => simp [ht] at h
           | some tl =>
             simp only [ht, Option.bind_some, Option.some.injEq] at h
@@ -682,7 +682,7 @@ theorem buildSegs_get (times : List Int) (info : List SegInfo) :
               simp
             | succ i =>
               simp only [List.getElem?_cons_succ] at hs ⊢
-              exact ih infs' tl ht i s hs
+              exact ih (k + 1) infs' tl ht i s hs
 
 theorem mkSegments_disjoint (L : Layout) (g : List Seg) (h : mkSegments L = some g) : DisjointSegs g := by
   unfold mkSegments at h
@@ -693,7 +693,7 @@ theorem mkSegments_disjoint (L : Layout) (g : List Seg) (h : mkSegments L = some
     · simp at h
     · rename_i st _
       have hsorted : StrictSorted ((mkTable L).map (·.1)) := mkTable_sorted L
-      have hget := buildSegs_get _ _ _ _ g h
+      have hget := buildSegs_get _ _ _ _ _ g h
       intro a b sa sb ha hb hab
       obtain ⟨a1, a2⟩ := hget a sa ha
       obtain ⟨b1, b2⟩ := hget b sb hb
